@@ -20,7 +20,7 @@ Do(op, arg, A) == /\ Len(hist) < Depth /\ A /\ hist' = Append(hist, Rec(op, arg)
 InitH == Init /\ hist = <<>>
 NextH == \/ \E c \in ConsIds : Do("subject_to", c, SubjectTo(c))
          \/ Do("clear_constraints", "", ClearConstraints)
-         \/ Do("add_objective", "", AddObjective)
+         \/ Do("add_objective", "", AddObjective) \/ Do("add_state", "", AddState)
          \/ \E m \in Meths : Do("method", m, Method(m))
          \/ \E s \in Solvers : Do("solver", s, Solver(s))
          \/ \E v \in Tvals : Do("set_T", ToString(v), SetT(v))
@@ -33,8 +33,8 @@ NextH == \/ \E c \in ConsIds : Do("subject_to", c, SubjectTo(c))
 
 \* partition exhaustive runs by the first operation
 FirstCode == IF Len(hist) = 0 THEN 0
-             ELSE CHOOSE i \in 0..14 : hist[1].op = <<"subject_to", "clear_constraints", "add_objective", "method", "solver",
-                         "set_T", "set_t0", "set_value", "set_initial", "sample", "value", "jacobian", "solve", "save", "sol_sample">>[i + 1]
+             ELSE CHOOSE i \in 0..15 : hist[1].op = <<"subject_to", "clear_constraints", "add_objective", "method", "solver",
+                         "set_T", "set_t0", "set_value", "set_initial", "sample", "value", "jacobian", "solve", "save", "sol_sample", "add_state">>[i + 1]
 InPart == Len(hist) = 0 \/ FirstCode % Parts = Part
 
 Emit == (Len(hist) = Depth /\ InPart) => TLCSet(1, Append(TLCGet(1), [sc |-> [depth |-> Depth, n |-> Len(TLCGet(1))], hist |-> hist]))
